@@ -6,25 +6,28 @@ import (
 )
 
 // Yield sites. The first block is inside rux (verif-tagged hooks), the second in the harness.
-var siteNames = []string{
+var ruxSites = []string{
 	"serve.init", "serve.done", "dispatch.matched", "dispatch.chain", "dispatch.commit",
 	"cache.lookup", "cache.store", "cache.lock.len", "cache.lock.set", "cache.lock.get", "cache.lock.delete", "cache.hit",
-	"h.enter", "h.act", "h.next", "h.leave", "w.call", "client.next", "cop",
+	"lock", "lock.wait",
 }
 
-const (
-	siteHEnter = 12 + iota
-	siteHAct
-	siteHNext
-	siteHLeave
-	siteWCall
-	siteClientNext
-	siteCop
+var harnessSites = []string{"h.enter", "h.act", "h.next", "h.leave", "w.call", "client.next", "cop"}
+
+var siteNames = append(append([]string{}, ruxSites...), harnessSites...)
+
+var (
+	siteHEnter     = siteIndex("h.enter")
+	siteHAct       = siteIndex("h.act")
+	siteHNext      = siteIndex("h.next")
+	siteHLeave     = siteIndex("h.leave")
+	siteWCall      = siteIndex("w.call")
+	siteClientNext = siteIndex("client.next")
+	siteCop        = siteIndex("cop")
+	siteCacheHit   = siteIndex("cache.hit")
+	siteCacheStore = siteIndex("cache.store")
+	siteLockWait   = siteIndex("lock.wait")
 )
-
-var ruxSites = siteNames[:12]
-
-var siteCacheHit, siteCacheStore = siteIndex("cache.hit"), siteIndex("cache.store")
 
 func siteIndex(name string) int {
 	for i, s := range siteNames {
@@ -42,7 +45,12 @@ func ruxYield(site string) {
 		return // unknown site (a change under test added one): never scheduled on
 	}
 	probeSite(i)
+	taskCacheAdd(i)
 	if shCur() < 0 {
+		return
+	}
+	if i == siteLockWait {
+		taskYieldForced(i) // the lock is taken: somebody else has to run
 		return
 	}
 	taskYield(i)
@@ -64,10 +72,27 @@ type Sched struct {
 	MaxSteps int
 	Between  func(step int) // run by the scheduler between two steps, no task running
 	Overrun  bool
+	Deadlock bool
+	waiting  [maxTasks]bool
 	doneCh   [maxTasks]chan struct{}
 }
 
 func (s *Sched) pick() int {
+	c := s.pickRaw()
+	if c >= 0 && s.waiting[c] {
+		// c spins on a taken lock: let a task that can make progress run (round robin behind c)
+		for k := 1; k <= s.n; k++ {
+			o := (c + k) % s.n
+			if !s.done[o] && !s.waiting[o] {
+				return o
+			}
+		}
+		s.Deadlock = true // every unfinished task waits for a lock
+	}
+	return c
+}
+
+func (s *Sched) pickRaw() int {
 	for s.pos < len(s.schedule) {
 		c := s.schedule[s.pos]
 		s.pos++
@@ -141,6 +166,12 @@ func (s *Sched) Run(enabled []string, bodies []func()) bool {
 				site = -1
 			}
 			s.Steps = append(s.Steps, StepRec{t, site})
+			s.waiting[t] = site == siteLockWait
+		}
+		if s.Deadlock {
+			s.Overrun = true
+			shSetActive(false)
+			return false
 		}
 		if s.Between != nil {
 			s.Between(len(s.Steps))
